@@ -3,11 +3,11 @@ package main
 // C05 — the cache hierarchy is transparent and leaves nothing behind.
 
 import (
-	"os"
 	"fmt"
 	"go/ast"
 	"go/token"
 	"go/types"
+	"os"
 	"sort"
 	"strings"
 
@@ -656,7 +656,6 @@ func ruleProbeNotCached(r *Run, rule string, v *variant, byVar map[*types.Var]*c
 	}
 	_ = byVar
 }
-
 
 func stripConv(info *types.Info, e ast.Expr) ast.Expr {
 	for {
